@@ -181,13 +181,15 @@ pub enum Naming {
 
 pub struct Printer {
     pub naming: Naming,
+    /// spell `?`, `*`, `+`, `{n}` as `{0,1}`, `{0,}`, `{1,}`, `{n,n}`
+    pub verbose_quantifiers: bool,
     out: String,
     next_group: u32,
 }
 
 impl Printer {
     pub fn new(naming: Naming) -> Printer {
-        Printer { naming, out: String::new(), next_group: 0 }
+        Printer { naming, verbose_quantifiers: false, out: String::new(), next_group: 0 }
     }
 
     pub fn print(mut self, n: &Node) -> String {
@@ -361,6 +363,12 @@ impl Printer {
                 }
                 self.p(c, 2);
                 match (lo, hi) {
+                    (lo, Some(hi)) if self.verbose_quantifiers => {
+                        let _ = write!(self.out, "{{{},{}}}", lo, hi);
+                    }
+                    (lo, None) if self.verbose_quantifiers => {
+                        let _ = write!(self.out, "{{{},}}", lo);
+                    }
                     (0, Some(1)) => self.out.push('?'),
                     (0, None) => self.out.push('*'),
                     (1, None) => self.out.push('+'),
@@ -761,4 +769,10 @@ pub fn inject_all(n: &Node, inj: &Node) -> Node {
         }
     }
     go(n, inj)
+}
+
+pub fn to_pattern_verbose_quantifiers(n: &Node) -> String {
+    let mut p = Printer::new(Naming::Numbered);
+    p.verbose_quantifiers = true;
+    p.print(n)
 }
